@@ -392,6 +392,14 @@ func runC03(c *Ctx) {
 						}
 					}
 				}
+				if phase == 0 && (listener == "tcp" || listener == "gnet" || listener == "tls") {
+					// two more connections of 40 pipelined queries that are all answered at once (same
+					// fast upstream): responses completing together on one connection
+					for k := 0; k < 80; k++ {
+						seq++
+						qs = append(qs, c03Build(r, listener, "pipe", "ok", "", seq))
+					}
+				}
 				if listener == "quic" {
 					for qi, q := range qs {
 						q.LateFin = qi%2 == 1
